@@ -452,6 +452,14 @@ class InterpBase:
             return kv.s
         if isinstance(kv, VInt) and z3.is_int_value(kv.e):
             return kv.e.as_long()
+        if isinstance(kv, VRef) and isinstance(self.ex.heap.get(kv.addr), HObj):
+            # an object of a repository class that defines neither __eq__ nor __hash__ (e.g. an Enum member: a singleton) is a key by identity;
+            # only lookups and stores are supported with such keys (iterating over them is not: the key is kept as an opaque token)
+            ci = self.ex.heap[kv.addr].cls
+            from .frontend import ClassInfo
+            mro = [c for c in self.ex.repo.mro(ci) if isinstance(c, ClassInfo)] if isinstance(ci, ClassInfo) else []
+            if mro and not any(m in c.methods for c in mro for m in ('__eq__', '__hash__')):
+                return f'<object@{kv.addr}>'
         raise Undecided(f'non-constant dict key {kv!r}')
 
     def concrete_items(self, v, node=None):
